@@ -12,6 +12,11 @@
 //!         `FluffConfig` through every public route (config text, config map, the builder
 //!         `with_sql_file_exts`, the builder over a configured list, `Linter::config_mut`) and with
 //!         extension lists in arbitrary letter case.
+//!  (nav)  the Gallina pipeline over *written* arguments (`Disc/Nav.v`: "..", ".", absolute, detours) vs
+//!         the real binary run from a working directory nested inside the tree (`.sqruff` and
+//!         `.sqruffignore` in that directory), and (navlib) vs `Linter::lint_paths` called in a process
+//!         whose working directory is that directory;
+//!  (norm) the Gallina `normalize` vs `sqruff_lib_core::helpers::normalize` on random written paths.
 //! Independently of the model, every pipeline run is judged directly against the property text
 //! with the `ignore` crate as the gitignore reference (`Buf::direct`).
 use std::collections::{BTreeMap, BTreeSet};
@@ -866,11 +871,627 @@ fn parse_tree_case(v: &Value) -> TreeCase {
     }
 }
 
+// ------------------------------------------------------------------ (nav) written arguments, nested working directory
+/// A path argument as the user writes it: components may be "." and "..".
+#[derive(Clone)]
+struct RawArg {
+    abs: bool,          // below the root of the scratch tree, spelled absolutely
+    comps: Vec<String>, // relative to the working directory (or to the root of the tree when `abs`)
+    slash: bool,        // trailing "/"
+}
+
+#[derive(Clone)]
+struct NavCase {
+    tree: Vec<(Vec<String>, bool)>,
+    exts_cfg: String,
+    lines: Option<Vec<String>>, // the .sqruffignore in the working directory
+    cwd: Vec<String>,           // a directory of the tree
+    args: Vec<RawArg>,
+    cls: &'static str,
+}
+
+fn lex_step(loc: &mut Vec<String>, c: &str) {
+    match c {
+        "." | "" => {}
+        ".." => {
+            loc.pop();
+        }
+        n => loc.push(n.to_string()),
+    }
+}
+/// The harness's own reading of a written path (no symbolic links): location relative to the root of the tree.
+fn lex_resolve(cwd: &[String], abs: bool, comps: &[String]) -> Vec<String> {
+    let mut loc: Vec<String> = if abs { vec![] } else { cwd.to_vec() };
+    for c in comps {
+        lex_step(&mut loc, c);
+    }
+    loc
+}
+
+fn spell_raw(root: &Path, a: &RawArg) -> String {
+    let j = a.comps.join("/");
+    let mut s = if a.abs {
+        if j.is_empty() { root.display().to_string() } else { format!("{}/{}", root.display(), j) }
+    } else if j.is_empty() {
+        ".".to_string()
+    } else {
+        j
+    };
+    if a.slash {
+        s.push('/');
+    }
+    s
+}
+
+/// (absolute?, components as written) of a path string; absolute paths keep all their components.
+fn parse_written(s: &str) -> (bool, Vec<String>) {
+    (s.starts_with('/'), s.split('/').filter(|c| !c.is_empty()).map(|c| c.to_string()).collect())
+}
+
+fn g_comp(c: &str) -> String {
+    match c {
+        "." => "CCur".to_string(),
+        ".." => "CPar".to_string(),
+        n => format!("CName {}", g_str(n)),
+    }
+}
+fn g_rpath(abs: bool, comps: &[String]) -> String {
+    format!("{{| r_abs := {}; r_comps := {} |}}", g_bool(abs), g_list(comps.iter().map(|c| g_comp(c))))
+}
+
+fn child_dirs(tree: &[(Vec<String>, bool)], loc: &[String]) -> Vec<String> {
+    tree.iter().filter(|(p, d)| *d && p.len() == loc.len() + 1 && p[..loc.len()] == loc[..]).map(|(p, _)| p.last().unwrap().clone()).collect()
+}
+
+/// Write the target `loc` (relative to the root of the tree) as an argument from the working directory `w`.
+/// style 0: shortest relative path; 1: up to the root of the tree, then down; 2: absolute.
+/// `detours`: 0 none; 1 only those that keep the normal form below `w` ("x/..", ".", "../<same>" strictly below `w`); 2 any.
+fn write_target(rng: &mut Rng, tree: &[(Vec<String>, bool)], w: &[String], loc: &[String], is_dir: bool, style: u8, detours: u8) -> RawArg {
+    let abs = style == 2;
+    let base: Vec<String> = match style {
+        0 => {
+            let common = w.iter().zip(loc.iter()).take_while(|(a, b)| a == b).count();
+            let mut v: Vec<String> = (0..w.len() - common).map(|_| "..".to_string()).collect();
+            v.extend_from_slice(&loc[common..]);
+            v
+        }
+        1 => {
+            let mut v: Vec<String> = (0..w.len()).map(|_| "..".to_string()).collect();
+            v.extend_from_slice(loc);
+            v
+        }
+        _ => loc.to_vec(),
+    };
+    let mut cur: Vec<String> = if abs { vec![] } else { w.to_vec() };
+    let mut comps: Vec<String> = vec![];
+    let detour = |rng: &mut Rng, cur: &Vec<String>, comps: &mut Vec<String>| {
+        if detours == 0 || !rng.chance(1, 4) {
+            return;
+        }
+        match rng.below(3) {
+            0 => comps.push(".".to_string()),
+            1 => {
+                let ch = child_dirs(tree, cur);
+                if !ch.is_empty() {
+                    comps.push(ch[rng.below(ch.len())].clone());
+                    comps.push("..".to_string());
+                }
+            }
+            _ => {
+                let below_w = cur.len() > w.len() && cur[..w.len()] == w[..];
+                if !cur.is_empty() && (detours == 2 || abs || below_w) {
+                    comps.push("..".to_string());
+                    comps.push(cur.last().unwrap().clone());
+                }
+            }
+        }
+    };
+    for c in &base {
+        detour(rng, &cur, &mut comps);
+        comps.push(c.clone());
+        lex_step(&mut cur, c);
+    }
+    if is_dir {
+        detour(rng, &cur, &mut comps);
+    }
+    if !abs && (comps.is_empty() || rng.chance(1, 5)) {
+        comps.insert(0, ".".to_string());
+    }
+    let slash = is_dir && !comps.is_empty() && comps.last().map(|c| c != "." && c != "..").unwrap_or(false) && rng.chance(1, 6);
+    RawArg { abs, comps, slash }
+}
+
+fn gen_nav_case(rng: &mut Rng) -> NavCase {
+    let mut tree = gen_tree(rng);
+    let has = |tree: &Vec<(Vec<String>, bool)>, p: &Vec<String>| tree.iter().any(|(q, _)| q == p);
+    // the working directory: a directory of the tree at depth 1..3 (created when there is none)
+    let depth = match rng.below(9) {
+        0 | 1 => 1,
+        2..=5 => 2,
+        _ => 3,
+    };
+    let cands: Vec<Vec<String>> = tree.iter().filter(|(p, d)| *d && p.len() == depth).map(|(p, _)| p.clone()).collect();
+    let cwd: Vec<String> = if !cands.is_empty() && rng.chance(2, 3) {
+        cands[rng.below(cands.len())].clone()
+    } else {
+        let shallower: Vec<Vec<String>> = std::iter::once(vec![]).chain(tree.iter().filter(|(p, d)| *d && p.len() < depth).map(|(p, _)| p.clone())).collect();
+        let mut d = shallower[rng.below(shallower.len())].clone();
+        while d.len() < depth {
+            d.push(DIRS[rng.below(DIRS.len())].to_string());
+            if tree.iter().any(|(q, isd)| q == &d && !*isd) {
+                d.pop(); // a file of that name: another name
+                continue;
+            }
+            if !has(&tree, &d) {
+                tree.push((d.clone(), true));
+            }
+        }
+        d
+    };
+    // something to find in and below the working directory
+    for _ in 0..rng.range(0, 2) {
+        let below: Vec<Vec<String>> = std::iter::once(cwd.clone()).chain(tree.iter().filter(|(p, d)| *d && p.len() > cwd.len() && p[..cwd.len()] == cwd[..]).map(|(p, _)| p.clone())).collect();
+        let mut f = below[rng.below(below.len())].clone();
+        f.push(FILES[rng.below(FILES.len())].to_string());
+        if !has(&tree, &f) {
+            tree.push((f, false));
+        }
+    }
+    // the same layout again below the working directory (a project nested in a project): namesakes
+    let mut namesakes: Option<Vec<String>> = None;
+    if rng.chance(1, 3) {
+        let tops: Vec<String> = tree.iter().filter(|(p, _)| p.len() == 1 && p[0] != cwd[0]).map(|(p, _)| p[0].clone()).collect();
+        if !tops.is_empty() {
+            let x = tops[rng.below(tops.len())].clone();
+            let mut at = cwd.clone();
+            at.push(x.clone());
+            if !has(&tree, &at) {
+                let copies: Vec<(Vec<String>, bool)> = tree.iter().filter(|(p, _)| p[0] == x).map(|(p, d)| (cwd.iter().cloned().chain(p.iter().cloned()).collect(), *d)).collect();
+                if copies.iter().any(|(_, d)| !*d) {
+                    namesakes = Some(vec![x.clone()]);
+                }
+                tree.extend(copies);
+            }
+        }
+    }
+    let exts_cfg = EXTS[rng.below(EXTS.len())].to_string();
+    let below_only = rng.chance(2, 5);
+    let (lines, cls): (Option<Vec<String>>, &'static str) = if !below_only {
+        (None, "nav-above-cwd")
+    } else {
+        match rng.below(5) {
+            0 => (None, "nav-below-cwd"),
+            1 => (Some(vec!["*.hql".to_string(), String::new(), "# ignore ALL files in ANY directory named temp".to_string(), "temp/".to_string()]), "nav-below-cwd-ignore-file"),
+            2 => {
+                let ds: Vec<&Vec<String>> = tree.iter().filter(|(p, d)| *d && p.len() > cwd.len() && p[..cwd.len()] == cwd[..]).map(|(p, _)| p).collect();
+                let l = if ds.is_empty() { "temp/".to_string() } else { format!("{}/", ds[rng.below(ds.len())].last().unwrap()) };
+                (Some(vec![l]), "nav-below-cwd-ignore-file")
+            }
+            _ => (Some(gen_lines(rng)), "nav-below-cwd-ignore-file"),
+        }
+    };
+    // targets
+    let pool: Vec<(Vec<String>, bool)> = if below_only {
+        std::iter::once((cwd.clone(), true)).chain(tree.iter().filter(|(p, _)| p.len() > cwd.len() && p[..cwd.len()] == cwd[..]).cloned()).collect()
+    } else {
+        std::iter::once((vec![], true)).chain(std::iter::once((cwd.clone(), true))).chain(tree.iter().cloned()).collect()
+    };
+    let mut args: Vec<RawArg> = vec![];
+    let mut targets: Vec<(Vec<String>, bool)> = vec![];
+    if !rng.chance(1, 12) {
+        for _ in 0..rng.range(1, 3) {
+            let (loc, is_dir) = if !targets.is_empty() && rng.chance(1, 4) {
+                targets[rng.below(targets.len())].clone()
+            } else if let (Some(x), false, true) = (&namesakes, below_only, rng.chance(1, 2)) {
+                // the directory outside the working directory that has a namesake inside it
+                (x.clone(), tree.iter().any(|(p, d)| p == x && *d))
+            } else {
+                pool[rng.below(pool.len())].clone()
+            };
+            let style = if below_only { [0u8, 0, 2][rng.below(3)] } else { [0u8, 0, 1, 1, 2][rng.below(5)] };
+            // the ignorer of the command line resolves the name it is given (fix ed40389; before it read the name as written,
+            // and with an ignore file explicit files had to be written plainly): every spelling is generated
+            let detours = 2;
+            args.push(write_target(rng, &tree, &cwd, &loc, is_dir, style, detours));
+            targets.push((loc, is_dir));
+        }
+    }
+    NavCase { tree, exts_cfg, lines, cwd, args, cls }
+}
+
+fn materialise_nav(root: &Path, c: &NavCase, with_config_files: bool) -> std::io::Result<()> {
+    let bare = TreeCase { tree: c.tree.clone(), exts_cfg: c.exts_cfg.clone(), lines: None, args: vec![], cls: c.cls };
+    materialise(root, &bare)?;
+    std::fs::remove_file(root.join(".sqruff"))?;
+    let wd = root.join(c.cwd.join("/"));
+    std::fs::create_dir_all(&wd)?;
+    if with_config_files {
+        let mut cfg = String::from("[sqruff]\ndialect = ansi\nrules = CP01\n");
+        if !c.exts_cfg.is_empty() {
+            cfg.push_str(&format!("sql_file_exts = {}\n", c.exts_cfg));
+        }
+        std::fs::write(wd.join(".sqruff"), cfg)?;
+        if let Some(ls) = &c.lines {
+            std::fs::write(wd.join(".sqruffignore"), ls.join("\n") + "\n")?;
+        }
+    }
+    Ok(())
+}
+
+/// `sqruff lint -f json <args>` in `dir`: (exit status, [(key, number of diagnostics)], stderr)
+fn run_lint_keys(env: &Env, dir: &Path, args: &[String]) -> (Option<i32>, Option<Vec<(String, usize)>>, String) {
+    let o = Command::new(&env.sqruff).current_dir(dir).env("RUST_BACKTRACE", "0").env("NO_COLOR", "1").arg("lint").arg("-f").arg("json").args(args).stdin(Stdio::null()).output();
+    let Ok(o) = o else {
+        return (None, None, "spawn failed".into());
+    };
+    let stderr = trunc(&String::from_utf8_lossy(&o.stderr), 400);
+    let status = o.status.code();
+    let parsed: Option<Value> = serde_json::from_slice(&o.stdout).ok();
+    let keys = match (status, parsed) {
+        (Some(0) | Some(1), Some(Value::Object(m))) => Some(m.into_iter().map(|(k, vs)| (k, vs.as_array().map(|a| a.len()).unwrap_or(0))).collect()),
+        _ => None,
+    };
+    (status, keys, stderr)
+}
+
+/// A reported name and the location it denotes for the operating system (components from the filesystem root).
+type NavOut = (bool, Vec<String>, Vec<String>);
+
+struct NavFrame {
+    rootc: Vec<String>,                  // components of the canonical root of the tree
+    expected: BTreeSet<Vec<String>>,     // the specified set (relative to the root of the tree)
+    ignored_cands: BTreeSet<Vec<String>>,
+    n_dotdot: usize,
+    max_climb: usize,
+    os_agrees: bool,
+    has_dup_args: bool,
+}
+
+/// Where a name written relative to `wd` leads for the operating system.
+fn os_location(wd: &Path, name: &str) -> Option<Vec<String>> {
+    let p = if name.starts_with('/') { PathBuf::from(name) } else { wd.join(name) };
+    p.canonicalize().ok().map(|c| parse_written(&c.display().to_string()).1)
+}
+
+fn nav_frame(root: &Path, c: &NavCase, exts: &[String], gi: Option<&Gitignore>) -> NavFrame {
+    let rootc = parse_written(&root.display().to_string()).1;
+    let wd = root.join(c.cwd.join("/"));
+    let is_dir = |p: &Vec<String>| p.is_empty() || c.tree.iter().any(|(q, d)| q == p && *d);
+    let has_ext = |name: &str| exts.iter().any(|e| name.to_lowercase().ends_with(e.to_lowercase().as_str()));
+    let targets: Vec<Vec<String>> = if c.args.is_empty() { vec![c.cwd.clone()] } else { c.args.iter().map(|a| lex_resolve(&c.cwd, a.abs, &a.comps)).collect() };
+    let mut os_agrees = true;
+    for (a, t) in c.args.iter().zip(targets.iter()) {
+        let want: Vec<String> = rootc.iter().cloned().chain(t.iter().cloned()).collect();
+        if os_location(&wd, &spell_raw(root, a)) != Some(want) {
+            os_agrees = false;
+        }
+    }
+    let mut cands: BTreeSet<Vec<String>> = BTreeSet::new();
+    for a in &targets {
+        if is_dir(a) {
+            for (p, d) in &c.tree {
+                if !*d && p.len() > a.len() && p[..a.len()] == a[..] && has_ext(p.last().unwrap()) {
+                    cands.insert(p.clone());
+                }
+            }
+        } else {
+            cands.insert(a.clone());
+        }
+    }
+    // the ignore file lies in the working directory; it says nothing about files outside it
+    let ignored = |p: &Vec<String>| p.len() > c.cwd.len() && p[..c.cwd.len()] == c.cwd[..] && gi.map(|g| ref_ignored(g, &p[c.cwd.len()..], false)).unwrap_or(false);
+    let ignored_cands: BTreeSet<Vec<String>> = cands.iter().filter(|p| ignored(p)).cloned().collect();
+    let expected: BTreeSet<Vec<String>> = cands.into_iter().filter(|p| !ignored(p)).collect();
+    let climbs: Vec<usize> = c.args.iter().filter(|a| !a.abs).map(|a| a.comps.iter().take_while(|x| *x == ".." || *x == ".").filter(|x| *x == "..").count()).collect();
+    let has_dup_args = {
+        let mut s = BTreeSet::new();
+        targets.iter().any(|a| !s.insert(a.clone())) || (targets.len() > 1 && targets.iter().any(|a| is_dir(a)))
+    };
+    NavFrame { rootc, expected, ignored_cands, n_dotdot: c.args.iter().filter(|a| a.comps.iter().any(|x| x == "..")).count(), max_climb: climbs.into_iter().max().unwrap_or(0), os_agrees, has_dup_args }
+}
+
+fn nav_observed(root: &Path, c: &NavCase, names: &[String]) -> (Vec<NavOut>, usize) {
+    let wd = root.join(c.cwd.join("/"));
+    let rootc = parse_written(&root.display().to_string()).1;
+    let mut dangling = 0usize;
+    let mut v: Vec<NavOut> = names
+        .iter()
+        .map(|k| {
+            let (abs, comps) = parse_written(k);
+            let loc = os_location(&wd, k).unwrap_or_else(|| {
+                dangling += 1;
+                if abs { comps.clone() } else { rootc.iter().cloned().chain(lex_resolve(&c.cwd, false, &comps)).collect() }
+            });
+            (abs, comps, loc)
+        })
+        .collect();
+    v.sort_by_key(|o| (o.2.join("/").into_bytes(), o.1.join("/").into_bytes()));
+    (v, dangling)
+}
+
+fn nav_judge(fr: &NavFrame, outs: &[NavOut], pre: &str, mode: &str) -> Option<(String, String)> {
+    let rel = |loc: &Vec<String>| -> Vec<String> {
+        if loc.len() >= fr.rootc.len() && loc[..fr.rootc.len()] == fr.rootc[..] { loc[fr.rootc.len()..].to_vec() } else { std::iter::once("<outside the tree>".to_string()).chain(loc.iter().cloned()).collect() }
+    };
+    let observed: BTreeSet<Vec<String>> = outs.iter().map(|o| rel(&o.2)).collect();
+    if let Some(p) = observed.difference(&fr.expected).next() {
+        let key = if fr.ignored_cands.contains(p) { format!("{pre}-ignored-file-linted") } else { format!("{pre}-unexpected-file-linted") };
+        let name = outs.iter().find(|o| &rel(&o.2) == p).map(|o| o.1.join("/")).unwrap_or_default();
+        return Some((key, format!("{mode}: a file outside the specified set was processed: {} (reported as {})", p.join("/"), name)));
+    }
+    if let Some(p) = fr.expected.difference(&observed).next() {
+        return Some((format!("{pre}-file-not-linted"), format!("{mode}: in the specified set but not processed: {}", p.join("/"))));
+    }
+    if outs.len() != observed.len() {
+        return Some((format!("{pre}-file-processed-twice"), format!("{mode}: a file is processed more than once")));
+    }
+    None
+}
+
+fn nav_input(kind: &str, c: &NavCase) -> Value {
+    json!({"kind":kind,"tree":c.tree,"exts":c.exts_cfg,"lines":c.lines,"cwd":c.cwd,"cls":c.cls,
+           "args":c.args.iter().map(|a| json!([a.abs, a.comps, a.slash])).collect::<Vec<_>>()})
+}
+
+fn nav_gallina_args(fr: &NavFrame, c: &NavCase, exts: &[String]) -> String {
+    g_tuple(&[
+        g_path(&fr.rootc),
+        g_path(&c.cwd),
+        g_list(c.tree.iter().map(|(p, d)| format!("{{| e_path := {}; e_dir := {} |}}", g_path(p), g_bool(*d)))),
+        g_list(exts.iter().map(|e| g_str(e))),
+        g_list(c.lines.clone().unwrap_or_default().iter().map(|l| g_str(l))),
+        g_list(c.args.iter().map(|a| {
+            let comps: Vec<String> = if a.abs { fr.rootc.iter().cloned().chain(a.comps.iter().cloned()).collect() } else { a.comps.clone() };
+            g_rpath(a.abs, &comps)
+        })),
+    ])
+}
+
+fn g_navouts(v: &[NavOut]) -> String {
+    g_list(v.iter().map(|o| format!("({},{})", g_rpath(o.0, &o.1), g_path(&o.2))))
+}
+
+fn nav_counts(pre: &str, fr: &NavFrame, c: &NavCase, out: &mut Buf) {
+    out.count(&format!("{pre}_runs"), 1);
+    out.count(&format!("{pre}_expected_files"), fr.expected.len());
+    out.count(&format!("{pre}_candidate_files_ignored"), fr.ignored_cands.len());
+    out.count(&format!("{pre}_arguments_with_dotdot"), fr.n_dotdot);
+    if fr.max_climb >= 1 {
+        out.count(&format!("{pre}_runs_with_an_argument_above_the_working_directory"), 1);
+    }
+    if fr.max_climb >= 2 {
+        out.count(&format!("{pre}_runs_climbing_two_or_more_levels"), 1);
+    }
+    if c.args.iter().any(|a| a.abs && a.comps.iter().any(|x| x == "..")) {
+        out.count(&format!("{pre}_runs_with_dotdot_inside_an_absolute_argument"), 1);
+    }
+    out.count(&format!("{pre}_runs_working_directory_depth_{}", c.cwd.len()), 1);
+    out.hyp("a written path denotes what its components say (no symbolic links): lexical resolution = std::fs::canonicalize", "blocking", fr.os_agrees, nav_input("nav", c));
+}
+
+fn run_nav(env: &Env, idx: usize, c: &NavCase, out: &mut Buf) {
+    let root = env.scratch.join(format!("n{}", idx));
+    let _ = std::fs::remove_dir_all(&root);
+    let input = nav_input("nav", c);
+    if let Err(e) = materialise_nav(&root, c, true) {
+        out.count("materialise_failed", 1);
+        let _ = std::fs::remove_dir_all(&root);
+        eprintln!("materialise: {e}");
+        return;
+    }
+    let root = root.canonicalize().unwrap_or(root);
+    let wd = root.join(c.cwd.join("/"));
+    let gi = match c.lines.as_ref().map(|l| build_gi(l)) {
+        Some(Err(_)) => {
+            out.count("nav_pattern_rejected_by_crate", 1);
+            let _ = std::fs::remove_dir_all(&root);
+            return;
+        }
+        Some(Ok(g)) => Some(g),
+        None => None,
+    };
+    let exts = cfg_exts(&c.exts_cfg);
+    let fr = nav_frame(&root, c, &exts, gi.as_ref());
+    let spelled: Vec<String> = c.args.iter().map(|a| spell_raw(&root, a)).collect();
+    let (status, keys, stderr) = run_lint_keys(env, &wd, &spelled);
+    let lint: Option<(Vec<NavOut>, usize)> = keys.as_ref().map(|ks| {
+        let names: Vec<String> = ks.iter().flat_map(|(k, n)| std::iter::repeat(k.clone()).take((*n).max(1))).collect();
+        nav_observed(&root, c, &names)
+    });
+    let fix = Command::new(&env.sqruff).current_dir(&wd).env("RUST_BACKTRACE", "0").env("NO_COLOR", "1").arg("fix").arg("--force").args(&spelled).stdin(Stdio::null()).output();
+    let fix_status = fix.as_ref().ok().and_then(|o| o.status.code());
+    let mut written: Vec<Vec<String>> = vec![];
+    let mut changed_content: BTreeSet<Vec<String>> = BTreeSet::new();
+    for (p, d) in &c.tree {
+        if !*d {
+            let f = root.join(p.join("/"));
+            if std::fs::metadata(&f).and_then(|m| m.modified()).ok() != Some(old_time()) {
+                written.push(p.clone());
+            }
+            if std::fs::read_to_string(&f).map(|s| s != SQL).unwrap_or(true) {
+                changed_content.insert(p.clone());
+            }
+        }
+    }
+    written.sort_by_key(|p| p.join("/").into_bytes());
+    let _ = std::fs::remove_dir_all(&root);
+    nav_counts("nav", &fr, c, out);
+
+    match &lint {
+        None => out.direct(c.cls, false, "c19-nav-lint-crash", &format!("sqruff lint {:?} from {} did not produce a report (status {:?}): {}", spelled, c.cwd.join("/"), status, stderr), input.clone()),
+        Some((outs, _)) => {
+            let wset: BTreeSet<Vec<String>> = written.iter().cloned().collect();
+            if let Some((key, msg)) = nav_judge(&fr, outs, "c19-nav", &format!("sqruff lint {:?} from {}", spelled, c.cwd.join("/"))) {
+                out.direct(c.cls, false, &key, &msg, input.clone());
+            } else if fix_status != Some(0) && fix_status != Some(1) {
+                out.direct(c.cls, false, "c19-nav-fix-crash", &format!("sqruff fix exited with {:?}", fix_status), input.clone());
+            } else if wset != fr.expected {
+                let w: Vec<_> = wset.symmetric_difference(&fr.expected).map(|p| p.join("/")).collect();
+                let key = if wset.difference(&fr.expected).any(|p| fr.ignored_cands.contains(p)) { "c19-nav-ignored-file-written" } else { "c19-nav-written-set-differs" };
+                out.direct(c.cls, false, key, &format!("sqruff fix --force {:?} from {}: files written differ from the specified set: {:?}", spelled, c.cwd.join("/"), w), input.clone());
+            } else if changed_content != fr.expected {
+                out.direct(c.cls, false, "c19-nav-fixed-content-set-differs", "files whose content changed differ from the specified set", input.clone());
+            } else {
+                out.direct(c.cls, true, "", "", Value::Null);
+            }
+        }
+    }
+    let exp = match &lint {
+        Some((outs, _)) if fix_status == Some(0) || fix_status == Some(1) => format!(
+            "(Some ({},{}))",
+            g_navouts(outs),
+            g_list(written.iter().map(|p| g_path(&fr.rootc.iter().cloned().chain(p.iter().cloned()).collect::<Vec<_>>())))
+        ),
+        _ => "None".to_string(),
+    };
+    let sample = json!({"input":input,"working_directory":c.cwd.join("/"),"argv":spelled,"lint_status":status,"fix_status":fix_status,
+        "reported_name_and_location":lint.as_ref().map(|(v, _)| v.iter().map(|o| format!("{}{} -> /{}", if o.0 { "/" } else { "" }, o.1.join("/"), o.2.join("/"))).collect::<Vec<_>>()),
+        "written":written.iter().map(|p| p.join("/")).collect::<Vec<_>>()});
+    out.case("nav", c.cls, fr.n_dotdot > 0 || !fr.ignored_cands.is_empty() || fr.has_dup_args, nav_gallina_args(&fr, c, &exts), exp, sample);
+}
+
+/// The library entry point with the process's working directory inside the tree. Changes the working
+/// directory of the whole process: only called from the main thread when no other thread is running.
+fn run_navlib(env: &Env, idx: usize, c: &NavCase, out: &mut Buf) {
+    let root = env.scratch.join(format!("v{}", idx));
+    let _ = std::fs::remove_dir_all(&root);
+    let input = nav_input("navlib", c);
+    if let Err(e) = materialise_nav(&root, c, false) {
+        out.count("materialise_failed", 1);
+        let _ = std::fs::remove_dir_all(&root);
+        eprintln!("materialise: {e}");
+        return;
+    }
+    let root = root.canonicalize().unwrap_or(root);
+    let wd = root.join(c.cwd.join("/"));
+    let gi = match c.lines.as_ref().map(|l| build_gi(l)) {
+        Some(Err(_)) => {
+            let _ = std::fs::remove_dir_all(&root);
+            return;
+        }
+        Some(Ok(g)) => Some(g),
+        None => None,
+    };
+    let exts = cfg_exts(&c.exts_cfg);
+    let fr = nav_frame(&root, c, &exts, gi.as_ref());
+    let rootc = fr.rootc.clone();
+    // the caller's ignorer: the ignore lines are relative to the working directory and decide by location
+    let ignorer = |p: &Path| -> bool {
+        let (abs, comps) = parse_written(&p.to_string_lossy());
+        let loc: Vec<String> = if abs { lex_resolve(&[], true, &comps) } else { rootc.iter().cloned().chain(lex_resolve(&c.cwd, false, &comps)).collect() };
+        let base: Vec<String> = rootc.iter().cloned().chain(c.cwd.iter().cloned()).collect();
+        loc.len() > base.len() && loc[..base.len()] == base[..] && gi.as_ref().map(|g| ref_ignored(g, &loc[base.len()..], false)).unwrap_or(false)
+    };
+    let paths: Vec<PathBuf> = c.args.iter().map(|a| PathBuf::from(spell_raw(&root, a))).collect();
+    let mut cfg = String::from("[sqruff]\ndialect = ansi\nrules = CP01\n");
+    if !c.exts_cfg.is_empty() {
+        cfg.push_str(&format!("sql_file_exts = {}\n", c.exts_cfg));
+    }
+    let home = std::env::current_dir().ok();
+    if std::env::set_current_dir(&wd).is_err() {
+        out.count("navlib_chdir_failed", 1);
+        let _ = std::fs::remove_dir_all(&root);
+        return;
+    }
+    let r = catch(|| {
+        let mut linter = Linter::new(FluffConfig::from_source(&cfg, None), None, None, false);
+        let names = |r: &sqruff_lib::core::linter::linting_result::LintingResult| -> Vec<String> { r.paths.iter().flat_map(|d| d.files.iter().map(|f| f.path.clone()).collect::<Vec<_>>()).collect() };
+        let lint = names(&linter.lint_paths(paths.clone(), false, &ignorer));
+        let fix = names(&linter.lint_paths(paths.clone(), true, &ignorer));
+        (lint, fix)
+    });
+    if let Some(h) = &home {
+        let _ = std::env::set_current_dir(h);
+    }
+    let obs = r.as_ref().ok().map(|(l, f)| (nav_observed(&root, c, l).0, nav_observed(&root, c, f).0));
+    let untouched = c.tree.iter().filter(|(_, d)| !*d).all(|(p, _)| std::fs::read_to_string(root.join(p.join("/"))).map(|s| s == SQL).unwrap_or(false));
+    let _ = std::fs::remove_dir_all(&root);
+    nav_counts("navlib", &fr, c, out);
+    let cls = format!("lib:{}", c.cls);
+    let shown: Vec<String> = paths.iter().map(|p| p.display().to_string()).collect();
+    match &r {
+        Err(e) => out.direct(&cls, false, "c19-navlib-lint-paths-panicked", &format!("Linter::lint_paths({:?}) with working directory {} panicked: {}", shown, c.cwd.join("/"), trunc(e, 300)), input.clone()),
+        Ok(_) => {
+            let (lint, fix) = obs.as_ref().unwrap();
+            let what = format!("Linter::lint_paths({:?}) with working directory {}", shown, c.cwd.join("/"));
+            if let Some((key, msg)) = nav_judge(&fr, lint, "c19-navlib", &format!("{what}, lint")).or_else(|| nav_judge(&fr, fix, "c19-navlib", &format!("{what}, fix"))) {
+                out.direct(&cls, false, &key, &msg, input.clone());
+            } else if !untouched {
+                out.direct(&cls, false, "c19-navlib-file-written", "Linter::lint_paths changed a file of the tree", input.clone());
+            } else {
+                out.direct(&cls, true, "", "", Value::Null);
+            }
+        }
+    }
+    let exp = match &obs {
+        Some((lint, fix)) => format!("(Some ({},{}))", g_navouts(lint), g_navouts(fix)),
+        None => "None".to_string(),
+    };
+    let show = |v: &Vec<NavOut>| v.iter().map(|o| format!("{}{} -> /{}", if o.0 { "/" } else { "" }, o.1.join("/"), o.2.join("/"))).collect::<Vec<_>>();
+    let sample = json!({"input":input,"working_directory":c.cwd.join("/"),"paths":shown,
+        "linted_name_and_location":obs.as_ref().map(|x| show(&x.0)),"processed_in_fix_mode":obs.as_ref().map(|x| show(&x.1))});
+    out.case("navlib", &cls, fr.n_dotdot > 0 || !fr.ignored_cands.is_empty() || fr.has_dup_args, nav_gallina_args(&fr, c, &exts), exp, sample);
+}
+
+fn parse_nav_case(v: &Value) -> NavCase {
+    let strs = |x: &Value| -> Vec<String> { x.as_array().map(|a| a.iter().map(|s| s.as_str().unwrap_or("").to_string()).collect()).unwrap_or_default() };
+    NavCase {
+        tree: v["tree"].as_array().map(|a| a.iter().map(|e| (strs(&e[0]), e[1].as_bool().unwrap_or(false))).collect()).unwrap_or_default(),
+        exts_cfg: v["exts"].as_str().unwrap_or("").to_string(),
+        lines: if v["lines"].is_null() { None } else { Some(strs(&v["lines"])) },
+        cwd: strs(&v["cwd"]),
+        args: v["args"].as_array().map(|a| a.iter().map(|e| RawArg { abs: e[0].as_bool().unwrap_or(false), comps: strs(&e[1]), slash: e[2].as_bool().unwrap_or(false) }).collect()).unwrap_or_default(),
+        cls: "replay",
+    }
+}
+
+// ------------------------------------------------------------------ (norm) helpers::normalize
+struct NormItem {
+    paths: Vec<(bool, Vec<String>)>,
+}
+
+fn gen_written(rng: &mut Rng) -> (bool, Vec<String>) {
+    let abs = rng.chance(1, 3);
+    let n = rng.range(0, 7);
+    let comps = (0..n)
+        .map(|_| match rng.below(20) {
+            0..=6 => "..".to_string(),
+            7..=9 => ".".to_string(),
+            _ => NAMES[rng.below(NAMES.len())].to_string(),
+        })
+        .collect();
+    (abs, comps)
+}
+
+fn run_norm(it: &NormItem, out: &mut Buf) {
+    let mut exp = vec![];
+    let mut shown = vec![];
+    let mut nontrivial = false;
+    for (abs, comps) in &it.paths {
+        let s = format!("{}{}", if *abs { "/" } else { "" }, comps.join("/"));
+        let Ok(n) = catch(|| sqruff_lib_core::helpers::normalize(Path::new(&s)).to_string_lossy().to_string()) else {
+            out.direct("normalize", false, "c19-normalize-panicked", &format!("helpers::normalize({s:?}) panicked"), json!({"kind":"norm","paths":it.paths}));
+            return;
+        };
+        let (nabs, ncomps) = parse_written(&n);
+        if comps.iter().filter(|c| *c == "..").count() >= 2 {
+            nontrivial = true;
+        }
+        shown.push(format!("{s} -> {n}"));
+        exp.push(g_rpath(nabs, &ncomps));
+    }
+    out.count("norm_paths", it.paths.len());
+    let args = g_list(it.paths.iter().map(|(a, c)| g_rpath(*a, c)));
+    out.case("norm", "random-written-paths", nontrivial, args, g_list(exp), json!({"input":{"kind":"norm","paths":it.paths},"normalize":shown}));
+}
+
 enum Item {
     Gi(GiItem),
     Git(usize, GiItem),
     Pipe(usize, TreeCase),
     Lib(usize, LibCase),
+    Nav(usize, NavCase),
+    Norm(NormItem),
 }
 
 pub fn main(args: &Args) {
@@ -882,6 +1503,7 @@ pub fn main(args: &Args) {
     std::fs::create_dir_all(&scratch).expect("scratch");
     let env = Env { sqruff, scratch: scratch.clone() };
     let mut items: Vec<Item> = vec![];
+    let mut navlib_items: Vec<NavCase> = vec![];
     let s = |x: &str| x.to_string();
     let p = |x: &str| -> Vec<String> { x.split('/').filter(|c| !c.is_empty()).map(|c| c.to_string()).collect() };
 
@@ -898,6 +1520,13 @@ pub fn main(args: &Args) {
             items.push(if v["kind"] == "git" { Item::Git(0, g) } else { Item::Gi(g) });
         } else if v["kind"] == "lib" {
             items.push(Item::Lib(0, parse_lib_case(&v)));
+        } else if v["kind"] == "nav" {
+            items.push(Item::Nav(0, parse_nav_case(&v)));
+        } else if v["kind"] == "navlib" {
+            navlib_items.push(parse_nav_case(&v));
+        } else if v["kind"] == "norm" {
+            let strs = |x: &Value| -> Vec<String> { x.as_array().map(|a| a.iter().map(|s| s.as_str().unwrap_or("").to_string()).collect()).unwrap_or_default() };
+            items.push(Item::Norm(NormItem { paths: v["paths"].as_array().map(|a| a.iter().map(|e| (e[0].as_bool().unwrap_or(false), strs(&e[1]))).collect()).unwrap_or_default() }));
         } else {
             items.push(Item::Pipe(0, parse_tree_case(&v)));
         }
@@ -955,10 +1584,50 @@ pub fn main(args: &Args) {
         for _ in 0..n_lib {
             items.push(Item::Lib(0, gen_lib_case(&mut rng)));
         }
+        // ---- written arguments from a working directory nested in the tree (after everything else, as above)
+        // regression: a project with the same layout again below jobs/nightly; arguments that climb out of the
+        // working directory by one, two and three levels, come back into it, or pass through it absolutely
+        let t3 = vec![(p("models"), true), (p("models/a.sql"), false), (p("models/staging"), true), (p("models/staging/b.sql"), false), (p("other"), true), (p("other/o.sql"), false), (p("top.sql"), false),
+            (p("jobs"), true), (p("jobs/j.sql"), false), (p("jobs/nightly"), true), (p("jobs/nightly/n.sql"), false), (p("jobs/nightly/models"), true), (p("jobs/nightly/models/a.sql"), false),
+            (p("jobs/nightly/temp"), true), (p("jobs/nightly/temp/t.sql"), false), (p("jobs/nightly/deep"), true), (p("jobs/nightly/deep/er"), true), (p("jobs/nightly/deep/er/d.sql"), false)];
+        let ra = |abs: bool, x: &str| RawArg { abs, comps: x.split('/').filter(|c| !c.is_empty()).map(|c| c.to_string()).collect(), slash: false };
+        let mut nav_reg: Vec<NavCase> = vec![];
+        for (cwd, args) in [
+            ("jobs/nightly", vec![ra(false, "../../models")]),
+            ("jobs/nightly", vec![ra(false, "../../other"), ra(false, "../j.sql")]),
+            ("jobs/nightly", vec![ra(false, "../.."), ra(false, "models")]),
+            ("jobs/nightly", vec![ra(false, "./../nightly/../../jobs/nightly/models"), ra(false, "../../models/a.sql"), ra(true, "jobs/../models")]),
+            ("jobs/nightly/deep/er", vec![ra(false, "../../../../models"), ra(false, "../../models"), ra(false, "../..")]),
+            ("jobs", vec![ra(false, "../models"), ra(false, "nightly/../../other/o.sql")]),
+            ("jobs/nightly", vec![]),
+        ] {
+            nav_reg.push(NavCase { tree: t3.clone(), exts_cfg: s(""), lines: None, cwd: p(cwd), args, cls: "regression" });
+        }
+        // every file below models/ has a namesake below the working directory
+        let mut t4 = t3.clone();
+        t4.push((p("jobs/nightly/models/staging"), true));
+        t4.push((p("jobs/nightly/models/staging/b.sql"), false));
+        nav_reg.push(NavCase { tree: t4.clone(), exts_cfg: s(""), lines: None, cwd: p("jobs/nightly"), args: vec![ra(false, "../../models")], cls: "regression" });
+        nav_reg.push(NavCase { tree: t4, exts_cfg: s(""), lines: None, cwd: p("jobs/nightly"), args: vec![ra(false, "../../models"), ra(false, "models")], cls: "regression" });
+        nav_reg.push(NavCase { tree: t3.clone(), exts_cfg: s(""), lines: Some(vec![s("temp/"), s("/n.sql")]), cwd: p("jobs/nightly"), args: vec![ra(false, "."), ra(true, "jobs/nightly/deep/../temp")], cls: "regression" });
+        for c in &nav_reg {
+            items.push(Item::Nav(0, c.clone()));
+            navlib_items.push(c.clone());
+        }
+        let (n_nav, n_navlib, n_norm) = if args.thorough() { (3000, 1500, 1000) } else { (320, 160, 100) };
+        for _ in 0..n_nav {
+            items.push(Item::Nav(0, gen_nav_case(&mut rng)));
+        }
+        for _ in 0..n_navlib {
+            navlib_items.push(gen_nav_case(&mut rng));
+        }
+        for _ in 0..n_norm {
+            items.push(Item::Norm(NormItem { paths: (0..20).map(|_| gen_written(&mut rng)).collect() }));
+        }
     }
     let mut k = 0usize;
     for it in items.iter_mut() {
-        if let Item::Pipe(i, _) | Item::Lib(i, _) = it {
+        if let Item::Pipe(i, _) | Item::Lib(i, _) | Item::Nav(i, _) = it {
             *i = k;
             k += 1;
         }
@@ -968,7 +1637,16 @@ pub fn main(args: &Args) {
         Item::Git(i, g) => run_git(&env.scratch, *i, g, buf),
         Item::Pipe(i, c) => run_pipe(&env, *i, c, buf),
         Item::Lib(i, c) => run_lib(&env, *i, c, buf),
+        Item::Nav(i, c) => run_nav(&env, *i, c, buf),
+        Item::Norm(n) => run_norm(n, buf),
     });
+    // the library entry point with the working directory of the process inside the tree: one after the
+    // other on this thread, every other thread has finished
+    for (i, c) in navlib_items.iter().enumerate() {
+        let mut buf = Buf::default();
+        run_navlib(&env, i, c, &mut buf);
+        out.absorb(buf);
+    }
     let _ = std::fs::remove_dir_all(&scratch);
     out.finish();
 }
